@@ -66,7 +66,7 @@ class Leaf:
     """One written scalar binding and where it must land."""
 
     def __init__(self, label, item, obj, dynamic, ui=None, setter=None, shown=None, member=None,
-                 in_mixed_group=False, handler=None, maybe=False):
+                 in_mixed_group=False, handler=None, maybe=False, hdr_text=None):
         self.label = label
         self.item = item            # qml.B or qml.G carrying it (for spans and reports)
         self.obj = obj
@@ -78,6 +78,7 @@ class Leaf:
         self.in_mixed_group = in_mixed_group
         self.handler = handler      # (emit label) for signal handlers
         self.maybe = maybe
+        self.hdr_text = hdr_text    # for maybe-kinds whose effect is a connection: text the header must contain
 
 
 class KindInst:
@@ -145,6 +146,11 @@ def ui_hits(ui_root, leaf):
         return 1 if texts == list(loc[1]) else 0
     if kind == "addaction":
         return sum(1 for a in e.findall("addaction") if a.attrs.get("name") == loc[1])
+    if kind == "layoutarray":
+        _k, lay_name, attr, index, text = loc
+        le = uiread.find_object(ui_root, lay_name)
+        parts = le.attrs.get(attr, "").split(",") if le is not None and le.attrs.get(attr) else []
+        return 1 if index < len(parts) and parts[index] == text else 0
     if kind == "cell":
         # effect of columns/rows/flow: the cell of the probe child
         c = uiread.find_object(ui_root, loc[1])
@@ -463,6 +469,16 @@ def special_kinds(sj, u):
         bs = qml.B("QLayout.columnSpan", "2")
         out.append(KindInst("attached-layout-span", [bs],
                             [Leaf("attached-layout-span", bs, sj.obj, False, ui=("itemattr", "colspan", "2"))], ["QLayout.columnSpan"]))
+        # a per-column / per-row setting written after a sibling that set a higher index
+        for name, attr, idx_attr in (("columnStretch", "columnstretch", "column"), ("rowStretch", "rowstretch", "row"),
+                                     ("columnMinimumWidth", "columnminimumwidth", "column")):
+            k1, k2 = u.next(), u.next()
+            other = "row" if idx_attr == "column" else "column"
+            sib = qml.Obj("QLabel", f"sib{k1}{sj.sfx}", [qml.B(f"QLayout.{idx_attr}", "1"), qml.B(f"QLayout.{other}", "0"), qml.B(f"QLayout.{name}", str(k1))])
+            bs = [qml.B(f"QLayout.{idx_attr}", "0"), qml.B(f"QLayout.{other}", "1"), qml.B(f"QLayout.{name}", str(k2))]
+            out.append(KindInst(f"attached-{name}-after-higher-index", bs,
+                                [Leaf(f"attached-{name}", bs[2], sj.obj, False, ui=("layoutarray", "hostlay" + sj.sfx, attr, 0, str(k2)))],
+                                ["QLayout.row", "QLayout.column", f"QLayout.{name}"], host_items=[sib]))
         b = qml.B("QLayout.alignment", "srcB.checked ? Qt.AlignLeft : Qt.AlignRight")
         out.append(KindInst("attached-layout-dyn", [b], [Leaf("attached-layout-dyn", b, sj.obj, True, shown="e", maybe=True)],
                             ["QLayout.alignment"], maybe=True))
@@ -529,6 +545,13 @@ def special_kinds(sj, u):
                                           ui=("attr", hname + "DefaultSectionSize", tag, text)),
                                      Leaf(f"{hname}:visible", carrier["visible"], sj.obj, False,
                                           ui=("attr", hname + "Visible", "bool", "false"))], [hname]))
+        for notation, hname in (("dotted", "horizontalHeader"), ("braces", "verticalHeader")):
+            k = u.next()
+            hb = qml.B("onSectionClicked", f'tgt.text = "H{k}"')
+            items = [qml.B(f"{hname}.onSectionClicked", hb.value)] if notation == "dotted" else [qml.G(hname, [hb])]
+            out.append(KindInst(f"{hname}-handler-{notation}", items,
+                                [Leaf(f"{hname}-handler", items[0], sj.obj, True, shown="-", maybe=True, hdr_text="::sectionClicked")],
+                                [hname], maybe=True))
         src, _x, shown = val_int(u, True)
         items, _c = group_items("braces", "horizontalHeader", [("defaultSectionSize", src)])
         out.append(KindInst("horizontalHeader-dyn", items, [Leaf("horizontalHeader-dyn", items[0], sj.obj, True, shown=shown, maybe=True)],
@@ -541,6 +564,11 @@ def special_kinds(sj, u):
                                   ui=("attr", "headerDefaultSectionSize", tag, text)),
                              Leaf("header:visible", carrier["visible"], sj.obj, False, ui=("attr", "headerVisible", "bool", "false"))],
                             ["header"]))
+        k = u.next()
+        items = [qml.B("header.onSectionClicked", f'tgt.text = "H{k}"')]
+        out.append(KindInst("header-handler-dotted", items,
+                            [Leaf("header-handler", items[0], sj.obj, True, shown="-", maybe=True, hdr_text="::sectionClicked")],
+                            ["header"], maybe=True))
         items, _c = group_items("braces", "header", [("visible", "srcB.checked")])
         out.append(KindInst("header-dyn", items, [Leaf("header-dyn", items[0], sj.obj, True, shown="true", maybe=True)],
                             ["header"], maybe=True))
@@ -687,7 +715,8 @@ def build_doc(sj, kinds, root=None):
     if sj.host == "plain":
         root.add(subj)
     elif sj.host == "layout-child":
-        root.add(qml.Obj("QWidget", "host" + x, [qml.Obj("QGridLayout", "hostlay" + x, [subj])]))
+        before = [o for k in kinds for o in k.host_items]       # siblings written before the subject
+        root.add(qml.Obj("QWidget", "host" + x, [qml.Obj("QGridLayout", "hostlay" + x, before + [subj])]))
     elif sj.host == "page":
         root.add(qml.Obj("QTabWidget", "host" + x, [subj]))
     elif sj.host == "layout":
@@ -958,7 +987,10 @@ def judge_run(t, p, res):
         if l.maybe:
             # accepted although support is unspecified: the dynamic value must reach *some* call
             t.inc("maybe_accepted")
-            if not any(l.shown in x for x in setup):
+            if l.hdr_text is not None:
+                if l.hdr_text not in p.header_text:
+                    t.violation(f"accepted-without-effect:{l.label}", dict(case, leaf=l.label, header_must_contain=l.hdr_text))
+            elif not any(l.shown in x for x in setup):
                 t.violation(f"accepted-without-effect:{l.label}", dict(case, leaf=l.label, trace=setup))
             continue
         if not l.setter or not (l.dynamic or l.in_mixed_group):
